@@ -196,6 +196,15 @@ void caseMembership(vrt::Case& c)
     as = ic;
     vrt::expect(sameMI(readMI(cp), m) && sameMI(readMI(as), m), "interval.clone", "copy:" + shapeOf(m), [&] { return what + " copy is " + showMI(readMI(cp)) + " assigned " + showMI(readMI(as)); });
   }
+  // getDescription: executed only (its output "[ 0; 1] " is not in the syntax readDescription documents; the statement does not relate them)
+  {
+    string dsc;
+    vrt::Outcome o = vrt::capture([&] { dsc = ic.getDescription(); });
+    vrt::counted("interval.getDescription-executed");
+    IntervalConstraint back;
+    vrt::Outcome o2 = vrt::capture([&] { back.readDescription(dsc); });
+    vrt::tally(string("getDescription-reread:") + (!o.returned() ? "getDescription-raised" : !o2.returned() ? "raised" : sameMI(readMI(back), m) ? "same-interval" : "other-interval"));
+  }
   // setLowerBound / setUpperBound reach the same interval from the default one
   {
     IntervalConstraint d;
@@ -1149,7 +1158,6 @@ void caseAuto(vrt::Case& c)
       hist += " ; AutoParameter(Parameter copy of it).setValue(" + str(x) + ")";
       vrt::step("AutoParameter(Parameter).setValue(" + str(x) + ")");
       Parameter plain("x", cur, ic);
-      if (plain.getValue() != cur) plain.setValue(cur);
       unique_ptr<AutoParameter> cp(new AutoParameter(plain));
       ap = move(cp);
       target = ap.get();
@@ -1853,9 +1861,9 @@ int main(int argc, char** argv)
     { "interval-membership", nI, nI, caseMembership, 600, true },
     { "interval-intersection", nI, nI, caseIntersection, 900, true },
     { "description", nDescEnum + 2000, nDescEnum + 100000, caseDescription, 600, false },
-    { "history", 60000, 1500000, caseHistory, 600, false },
-    { "auto", 40000, 800000, caseAuto, 600, false },
-    { "internal", 4000, 120000, caseInternal, 900, false },
+    { "history", 60000, 1000000, caseHistory, 2400, false },
+    { "auto", 40000, 800000, caseAuto, 900, false },
+    { "internal", 4000, 100000, caseInternal, 1200, false },
   };
   vrt::Meta meta;
   meta.rule = "interval-membership: every interval with bounds from the grid {-inf,-1e3,-1,-1e-9,0,1e-9,1,1+ulp,2,1e3,+inf} (ordered, reversed, equal) and the four open/closed "
